@@ -118,7 +118,7 @@ theorem elected_newview_is_valid_certificate (c : Cfg) (view : Nat) (vcs : List 
   have hids : (vcs.map (·.c)).map (·.sender.id) = vcs.map (·.c.sender.id) := by
     rw [List.map_map]; rfl
   refine ⟨rfl, hview, rfl, by rw [hcfg]; exact hlead, by rw [hcfg]; show isQuorum c ((vcs.map (·.c)).map (·.sender.id)) = true; rw [hids]; exact hq,
-    ?_, by show ((vcs.map (·.c)).map (·.sender.id)).Nodup; rw [hids]; exact hnd, rfl, rfl, ?_⟩
+    ?_, by show ((vcs.map (·.c)).map (·.sender.id)).Nodup; rw [hids]; exact hnd, rfl, rfl, by rw [hcfg]; rfl, ?_⟩
   · intro vc hvc
     obtain ⟨m, hm, rfl⟩ := List.mem_map.mp hvc
     exact hvalid m hm
@@ -167,7 +167,7 @@ theorem elected_newview_is_valid_certificate (c : Cfg) (view : Nat) (vcs : List 
 /-! ## follower side -/
 
 theorem lockOk_of_valid (n : Node) (nvm : NVMsg) (hv : C07.ValidCertificate n nvm) : lockOk n nvm = true := by
-  obtain ⟨_, _, _, _, _, vv, _, _, _, hl⟩ := hv
+  obtain ⟨_, _, _, _, _, vv, _, _, _, _, hl⟩ := hv
   unfold lockOk
   cases hlv : latestVote nvm.header.votes with
   | none => rfl
@@ -190,13 +190,13 @@ theorem valid_newview_is_adopted (w : Term.W) (nvm : NVMsg)
     ∧ Out.send (others w.n.cfg) (.prepare (ownPrepare w.n.cfg nvm.header.height nvm.header.view nvm.pp.header.hash))
         ∈ (handleNewView w nvm).outs := by
   have hlock := lockOk_of_valid w.n nvm hv
-  obtain ⟨a1, a2, a3, a4, a5, a6, a7, a8, a9, _⟩ := hv
+  obtain ⟨a1, a2, a3, a4, a5, a6, a7, a8, a9, a10, _⟩ := hv
   have hvotes : validateVotes w.n nvm.header.height nvm.header.view nvm.header.votes = true :=
     (C07.validateVotes_iff _ _ _ _).mpr ⟨a5, a6, a7⟩
   unfold handleNewView
   dsimp only
   rw [if_neg (by simp [a1]), if_neg a2, if_neg (by simp [a3]), if_neg (by simp [a4]), if_neg (by simp [hvotes]),
-    if_neg (by simp [a8]), if_neg (by simp [a9]), if_neg (by simp [hlock])]
+    if_neg (by simp [a8]), if_neg (by simp [a9]), if_neg (by simp [a10]), if_neg (by simp [hlock])]
   -- adoptNewView
   unfold adoptNewView
   dsimp only
